@@ -176,7 +176,7 @@ def run(ctx):
                           "the normal range; it is refuted for products that underflow to subnormals "
                           "(C18_conv_float_close_needs_no_underflow) and not stated for int inputs; outside that range the oracle "
                           "checks the bound per generated case only where the exact result is in range"]
-    ctx.cov["stdlib_axioms_used"] = ("C18_flint_small_int: FloatAxioms.Prim2SF_SF2Prim; C18_conv_float_close/_range: FloatAxioms "
+    ctx.cov["stdlib_axioms_used"] = ("C18_int_to_float_small_exact: FloatAxioms.Prim2SF_SF2Prim; C18_conv_float_close/_range: FloatAxioms "
                                      "(mul_spec, div_spec, eqb_spec, abs_spec, SF2Prim_Prim2SF, Prim2SF_valid, Prim2SF_SF2Prim), "
                                      "ClassicalDedekindReals.sig_not_dec, sig_forall_dec, Classical_Prop.classic, "
                                      "FunctionalExtensionality.functional_extensionality_dep (via Flocq / Reals)")
@@ -190,7 +190,7 @@ def run(ctx):
     class R:      # the float model has no extracted runner
         ok = br.ok
         failed_file, failed_line, excerpt = br.failed_file, br.failed_line, br.excerpt
-    # known findings are replayed on every run
+    # the repaired finding (flint on huge ints) is re-examined on every run; it is reported again if it returns
     out = run_oracle("c18.py", {"cases": [{"op": "flint", "arg": 2 ** 60 + 1}]})
     for f in out["failures"]:
         ctx.violation("counterexample", {"key": f["key"], "input": f["case"], "what": f["what"], "snippet": f["snippet"]})
